@@ -2,6 +2,8 @@
 
 use crate::engine::Ctx;
 
+pub mod c03;
+pub mod c04;
 pub mod c05;
 pub mod c06;
 pub mod c07;
@@ -18,7 +20,7 @@ pub mod c17;
 pub mod c20;
 pub mod fmt;
 
-pub const ALL: &[&str] = &["C05", "C06", "C07", "C08", "C09", "C10", "C11", "C12", "C13", "C14", "C15", "C16", "C17", "C20"];
+pub const ALL: &[&str] = &["C03", "C04", "C05", "C06", "C07", "C08", "C09", "C10", "C11", "C12", "C13", "C14", "C15", "C16", "C17", "C20"];
 
 pub fn exists(p: &str) -> bool {
     ALL.contains(&p)
@@ -26,6 +28,8 @@ pub fn exists(p: &str) -> bool {
 
 pub fn run(p: &str, ctx: &mut Ctx) {
     match p {
+        "C03" => c03::run(ctx),
+        "C04" => c04::run(ctx),
         "C05" => c05::run(ctx),
         "C06" => c06::run(ctx),
         "C07" => c07::run(ctx),
@@ -47,6 +51,8 @@ pub fn run(p: &str, ctx: &mut Ctx) {
 /// (non-triviality rule, assumptions)
 pub fn meta(p: &str) -> (String, Vec<String>) {
     let (r, a): (&str, &[&str]) = match p {
+        "C03" => (c03::RULE, c03::ASSUMPTIONS),
+        "C04" => (c04::RULE, c04::ASSUMPTIONS),
         "C05" => (c05::RULE, c05::ASSUMPTIONS),
         "C06" => (c06::RULE, c06::ASSUMPTIONS),
         "C07" => (c07::RULE, c07::ASSUMPTIONS),
